@@ -28,10 +28,49 @@ func argTypeKeys(c *ssa.CallCommon, ms *modset) {
 		}
 	}
 	for _, a := range c.Args {
+		root := a
+		if mi, ok := root.(*ssa.MakeInterface); ok {
+			root = mi.X
+		}
+		if al, ok := root.(*ssa.Alloc); ok && localOnlyAlloc(al) {
+			continue // a variable of the calling function that never leaves it: writes to it are invisible outside
+		}
 		t := a.Type()
 		if mi, ok := a.(*ssa.MakeInterface); ok {
 			t = mi.X.Type()
 		}
 		add(t)
 	}
+}
+
+// localOnlyAlloc: the allocation is only loaded, stored to, or passed as a call argument - its address is never
+// stored, returned or captured, so no caller of the allocating function can observe it.
+func localOnlyAlloc(al *ssa.Alloc) bool {
+	if al.Referrers() == nil {
+		return false
+	}
+	for _, r := range *al.Referrers() {
+		switch x := r.(type) {
+		case *ssa.UnOp, *ssa.DebugRef, *ssa.FieldAddr, *ssa.IndexAddr:
+		case *ssa.Store:
+			if x.Addr != ssa.Value(al) {
+				return false
+			}
+		case *ssa.Call:
+		case *ssa.MakeInterface:
+			// boxed to be passed on (e.g. errors.As(err, &target)): accept only if the interface value is just a call argument
+			if x.Referrers() != nil {
+				for _, rr := range *x.Referrers() {
+					if _, isCall := rr.(*ssa.Call); !isCall {
+						if _, isDbg := rr.(*ssa.DebugRef); !isDbg {
+							return false
+						}
+					}
+				}
+			}
+		default:
+			return false
+		}
+	}
+	return true
 }
